@@ -108,7 +108,7 @@ class C07(Check):
         res = result_template()
         viol, cnt = res["violations"], res["counters"]
         res["key"] = jdigest(case["config"])
-        base = sched.observe(case)
+        base = sched.observe(case, isolate=True)
         if base["error"]:
             name = base["error"].split(":")[0]
             cnt[f"aborted_{name}"] = 1
@@ -216,7 +216,7 @@ class C07(Check):
                     tmap.setdefault(ev["target_agent"]["id"], ev["target_agent"]["id"])
             c2 = dict(case)
             c2["config"] = relabel(case["config"], tmap, smap)
-            twin = sched.observe(c2)
+            twin = sched.observe(c2, isolate=True)
             if twin["error"]:
                 cnt["twin_aborted"] = 1
             else:
